@@ -232,7 +232,7 @@ def run(c):
             if not r.get("tree") or r["family"].startswith("shared") or r["role"] == "mixed":
                 continue
             if r.get("load_err"):
-                if r["family"] == "tree" or r["family"].startswith("chain"):
+                if r["family"] == "tree" or r["family"].startswith("chain") or r["family"].startswith("filelead"):
                     c.fail("oracle", "a filter built from documented predicates, comparisons and connectives is refused at load",
                            input=inp(r), observed=r["load_err"])
                 continue
@@ -280,6 +280,30 @@ def run(c):
                         if "".join(reason.split()) not in "".join(r["src"].split()):      # (the engine prints the operand with go/printer's spacing)
                             c.fail("oracle", "debugging a group: a reject reason is not a part of the filter", input=inp(r, {"RunContext.Debug": d["group"]}), observed=reason)
         c.coverage["chain_rules_" + tag] = len([r for r in rules if r["family"].startswith("chain")])
+        # ---- file-level operands first (families filelead*, and whatever the random trees drew): the leftmost operand is a predicate
+        # about the file / the Go version, an `||` stands above it, and some match of a file in which the operand is false must be
+        # accepted -- the inputs on which "decide per file from the first operand" goes wrong
+        def leftmost(t, ors=0):
+            while t["k"] in ("and", "or", "not"):
+                ors += t["k"] == "or"
+                t = t["x"]
+            return t, ors
+        file_atoms = {int(a["role"]) for a in atoms if ".File()." in a["src"] or ".GoVersion()." in a["src"]}
+        lead = {"filelead": 0, "tree": 0}
+        lead_atoms = set()
+        for r in rules:
+            if not r.get("tree") or r.get("load_err") or not (r["family"].startswith("filelead") or r["family"] == "tree"):
+                continue
+            t, ors = leftmost(r["tree"])
+            if t["k"] == "atom" and t["atom"] in file_atoms and ors and r["tree"]["k"] != "not":
+                e_acc, e_panic, _ = predict(r)
+                if not e_panic and any(i not in atom_acc_all[t["atom"]] for i in e_acc):
+                    lead["filelead" if r["family"].startswith("filelead") else "tree"] += 1
+                    lead_atoms.add(t["atom"])
+        c.coverage["file_level_operand_first_under_or_" + tag] = dict(lead, atoms=len(lead_atoms), file_level_atoms=len(file_atoms))
+        if lead["filelead"] < 20 or len(lead_atoms) < 4 or len(file_atoms) < 6:
+            c.obligation("harness-sanity:file-level-operand-first", False,
+                         "filters whose leftmost operand is a file-level predicate under `||`, false in a file that has accepted matches: %r" % (c.coverage["file_level_operand_first_under_or_" + tag],))
 
         for fam, m in fams.items():
             if fam.startswith("conn"):
